@@ -50,7 +50,9 @@ for line in sys.stdin:
         except BaseException as e:
             broken.add(rel)
             errs.append({"clause": "compile", "file": rel, "msg": "%s: %s" % (type(e).__name__, e)})
-    for rel in files:
+    seen_msgs = set()
+    prio = {"cog": 0, "models": 1, "builders": 2}
+    for rel in sorted(files, key=lambda r: (prio.get(r.split(os.sep)[0], 3), r)):
         mod = rel[:-3].replace(os.sep, ".")
         if mod.endswith("__init__"):
             mod = mod[:-len("__init__")].rstrip(".")
@@ -60,7 +62,11 @@ for line in sys.stdin:
         except BaseException as e:
             if broken and isinstance(e, SyntaxError):
                 continue  # already reported by the byte-compilation of the broken file
-            errs.append({"clause": "import", "file": rel, "msg": "%s: %s" % (type(e).__name__, e)})
+            msg = "%s: %s" % (type(e).__name__, e)
+            if msg in seen_msgs:
+                continue  # the same failure seen through a module that imports the failing one
+            seen_msgs.add(msg)
+            errs.append({"clause": "import", "file": rel, "msg": msg})
     for k in list(sys.modules):
         if k == unit or k.startswith(unit + "."):
             del sys.modules[k]
@@ -83,7 +89,6 @@ func (e *Evaluator) checkPython(cases []*Case, files map[string][]string) {
 	}
 	root := filepath.Join(e.ws.Dir, "out/python")
 	ch := make(chan *Case)
-	var mu sync.Mutex
 	var wg sync.WaitGroup
 	n := runtime.NumCPU()
 	if n > len(reps) {
@@ -116,9 +121,9 @@ func (e *Evaluator) checkPython(cases []*Case, files map[string][]string) {
 				for i := range v {
 					v[i].Text = strings.ReplaceAll(v[i].Text, c.ID, "UNIT")
 				}
-				mu.Lock()
+				e.vmu.Lock()
 				e.verdicts[hashOf[c.ID]] = dedupRaw(v)
-				mu.Unlock()
+				e.vmu.Unlock()
 			}
 		}()
 	}
